@@ -16,7 +16,11 @@ theorem Evo.reprioEv {w0 w : World} (h : Evo w0 w) {k : Nat} {v : Int} {ev' : Ev
   · cases hr
   · simp only [Except.ok.injEq] at hr
     subst hr
-    exact ⟨rfl, fun hi => (hinv hi).1, id, Nat.le_refl _, rfl, rfl, rfl, rfl, rfl, rfl⟩
+    refine ⟨rfl, fun hi => (hinv hi).1, id, Nat.le_refl _, rfl, rfl, rfl, rfl, rfl, rfl, ?_⟩
+    intro e' he' _
+    simp only [List.mem_map] at he'
+    obtain ⟨e, he, rfl⟩ := he'
+    refine ⟨e, he, ?_, ?_, ?_⟩ <;> split <;> rfl
 
 theorem Evo.reprioGuard {w0 w : World} (h : Evo w0 w) (q : Pid) (v : Int) (g : Nat) : Evo w0 (reprioGuard w q v g) := by
   unfold S3.reprioGuard; evo
@@ -168,6 +172,9 @@ structure ClockStep (w w' : World) : Prop where
   counter : w.ev.counter ≤ w'.ev.counter
   psize : w'.procs.size = w.procs.size
   dispatched : w'.dispatched = w.dispatched + 1
+  /-- an event that is still pending afterwards has kept its time, action, subject and signal -/
+  stable : ∀ e' ∈ w'.ev.pending, e'.key ≤ w.ev.counter →
+    ∃ e ∈ w.ev.pending, e.key = e'.key ∧ e.d = e'.d ∧ e.item = e'.item
 
 theorem dispatch_clock {w w' : World} (hi : EvInv w.ev) (hd : dispatch w = some w') : ClockStep w w' := by
   rw [dispatch_eq] at hd
@@ -178,7 +185,13 @@ theorem dispatch_clock {w w' : World} (hi : EvInv w.ev) (hd : dispatch w = some 
     simp only [Option.some.injEq] at hd
     have hE : Evo (afterNext w ev') w' := by
       rw [← hd]; exact (Evo.takeNext w t ev').dispatchBody t
-    refine ⟨⟨t, hmem, hmin, ?_, ?_, ?_⟩, ?_, hE.evinv hinv', ?_, ?_, hE.psize, hE.dispatched⟩
+    have hctr : (afterNext w ev').ev.counter = w.ev.counter := by
+      unfold executeNext at hnext
+      split at hnext
+      · cases hnext
+      · simp only [Option.some.injEq, Prod.mk.injEq] at hnext
+        rw [← hnext.2]; rfl
+    refine ⟨⟨t, hmem, hmin, ?_, ?_, ?_⟩, ?_, hE.evinv hinv', ?_, ?_, hE.psize, hE.dispatched, ?_⟩
     · show w'.ev.now = t.d
       rw [hE.now]; exact hnow
     · rw [hE.executed]; exact hex
@@ -186,13 +199,11 @@ theorem dispatch_clock {w w' : World} (hi : EvInv w.ev) (hd : dispatch w = some 
     · show w.ev.now ≤ w'.ev.now
       rw [hE.now]; exact hle
     · intro hf; exact hE.fault hf
-    · have : (afterNext w ev').ev.counter = w.ev.counter := by
-        unfold executeNext at hnext
-        split at hnext
-        · cases hnext
-        · simp only [Option.some.injEq, Prod.mk.injEq] at hnext
-          rw [← hnext.2]; rfl
-      rw [← this]; exact hE.counter
+    · rw [← hctr]; exact hE.counter
+    · intro e' he' hk
+      obtain ⟨e, he, h1, h2, h3⟩ := hE.stable e' he' (by rw [hctr]; exact hk)
+      have : e ∈ remove w.ev.pending t.key := by rw [← hpend]; exact he
+      exact ⟨e, (mem_remove.1 this).1, h1, h2, h3⟩
 
 /-! ### the whole run -/
 
